@@ -14,7 +14,7 @@ from harness import runs, runcommon, actcorr, translate, fpcorr, fpcorr2, sysinv
 
 ID = "C09"
 NEEDS_GEN = True
-THEOREM_MODULES = ["JF.Props.C09", "JF.Props.Footprints", "JF.Props.Footprints2", "JF.Props.SystemInv", "JF.Gen.WiringsSound"]
+THEOREM_MODULES = ["JF.Props.C09", "JF.Props.Footprints", "JF.Props.Footprints2", "JF.Props.SystemInv", "JF.Props.SystemInv2", "JF.Gen.WiringsSound"]
 COMPONENTS = ["act"]
 ASSUMPTIONS = [
     "footprint tables (JF/Model/Wiring.lean: `affects`, `reads`) are hypotheses of the link theorem (`FootprintsSound`); for point-mass "
@@ -117,6 +117,10 @@ def run(ctx, which=WHICH, oracle=None, per_trace=None):
                 sysinvcorr.check_trace(ctx, tr)     # hypotheses of JF.Props.SystemInv (CandOK, TieFree) measured on the run
             except Exception as e:
                 ctx.disagree("sysinv.check-trace", {"ini": meta["ini"], "job": tr.get("job")}, "evaluated", repr(e))
+            try:
+                sysinvcorr.check_trace2(ctx, tr, w)  # hypotheses of JF.Props.SystemInv2 (CandsOK2, end of run) on composite runs without cells
+            except Exception as e:
+                ctx.disagree("sysinv2.check-trace", {"ini": meta["ini"], "job": tr.get("job")}, "evaluated", repr(e))
         for leg in tr["legs"][:cap]:
             pre = leg.get("preceding")
             ctx.cls(("act", meta["ini"].split("/")[-1], None if pre is None else meta["handlers"][pre][0], len(leg["created"]), len(leg["trashed"])))
